@@ -31,7 +31,7 @@ ASSUMPTIONS = ["os-level events issued through Python are all seen by the audit 
                "'complete' = the file decompresses (with its .ch) to / equals the source bytes",
                "a failure is an exception raised while one chunk is being (de)compressed"]
 REQUIRED = {"compress_faults_injected": 20, "decompress_faults_injected": 20, "remove_events_judged": 4, "stale_bin_runs": 9, "twin_sync_selectors": 50, "twin_selectors": 200,
-            "roundtrips": 4, "entry_paths": 8}
+            "roundtrips": 4, "entry_paths": 8, "twin_inconsistent_metadata": 3}
 CASE_TIMEOUT = 200.0
 
 
@@ -44,9 +44,10 @@ def gen_cases(seed, tier):
     return cases
 
 
-def make_file(rng, d, small=False):
-    """returns (bin path, raw, reader kwargs, chunk_duration, label)"""
-    flat = rng.random() < 0.2
+def make_file(rng, d, small=False, mismatch=False):
+    """returns (bin path, raw, reader kwargs, chunk_duration, label)
+    mismatch: the metadata announces another sample count than the file holds (interrupted / growing acquisition, chopped copy)"""
+    flat = rng.random() < 0.2 and not mismatch
     ns = int(rng.integers(200, 900 if small else 3000))
     if flat:
         nc = int(rng.integers(1, 4))
@@ -63,12 +64,18 @@ def make_file(rng, d, small=False):
     else:
         kind = str(rng.choice(G.KINDS))
         n = int(rng.choice([1, 4, 31, 100, 384, 384]))
-        rec = G.make(rng, kind=kind, sites=G.draw_sites(rng, kind, n, "dense"), ns=ns, gains=G.random_gains(rng))
+        claim = None
+        if mismatch:
+            claim = max(1, ns + int(rng.choice([-1, 1])) * int(rng.choice([1, 2, 17, 150, 5000])))
+        rec = G.make(rng, kind=kind, sites=G.draw_sites(rng, kind, n, "dense"), ns=ns, gains=G.random_gains(rng), claim_ns=claim)
         b = G.write(rec, d)
         raw = rec.raw
         kw = dict(sort=bool(rng.integers(0, 2)))
         fs = rec.fs
         label = f"{kind} nc={rec.nc} ns={ns}"
+        if mismatch:
+            kw["ignore_warnings"] = bool(rng.integers(0, 2))
+            label += f" (metadata announces {claim} samples, ignore_warnings={kw['ignore_warnings']})"
     nchunks = int(rng.integers(3, 12 if small else 41))
     per = max(2, ns // nchunks + 1)
     if ns % per == 0:
@@ -208,7 +215,9 @@ def run_case(case):
             nt += 2
         res.sig = f"faults-{label}"
     elif cls == "twin":
-        b, raw, kw, cd, label = make_file(rng, d)
+        b, raw, kw, cd, label = make_file(rng, d, mismatch=rng.random() < 0.3)
+        if "ignore_warnings" in kw:
+            res.count("twin_inconsistent_metadata")
         try:
             srb = spikeglx.Reader(b, **kw)
             before = M.snapshot(d)
@@ -219,7 +228,8 @@ def run_case(case):
                       f"{label}: keep_original=True added {added} removed {removed} changed {changed}")
             src = spikeglx.Reader(fc, **kw)
             seams = np.asarray(src._raw.chunk_bounds[1:-1])
-            res.check(srb.shape == src.shape, "twin:shape", f"{label}: shapes {srb.shape} vs {src.shape}")
+            res.check(srb.shape == src.shape and srb.ns == src.ns and srb.rl == src.rl, "twin:shape", f"{label}: bin shape {srb.shape} ns {srb.ns} duration {srb.rl}, "
+                      f"cbin shape {src.shape} ns {src.ns} duration {src.rl}")
             ns, nc = srb.shape
             for p in range(case["pairs"]):
                 nsel, nlab = S.sample_selector(rng, ns, fancy_ok=False, seams=seams)
